@@ -698,6 +698,58 @@ def _run_own(ctx):
     return proved
 
 
+def signal_phase(ctx):
+    """'still complete with the correct result by retrying' in an application that has its own timers: SIGALRM every 2 ms (handler
+    without SA_RESTART) while libmunge retries after one lost reply; the back-off between attempts is a sleep that gets interrupted"""
+    import rig, proxy, subprocess
+    exe, err = rig.build_daemon(ctx, san="address")
+    lm, err2 = rig.build_lmclient(ctx, name="lmclient-sig")
+    if exe is None or lm is None:
+        ctx.violation("build failed for the signal phase: " + (err or err2)[-300:], {"obligation": "build"}, found_input=False)
+        return
+    d = rig.Daemon(ctx, exe, tag="c13sig", nthreads=2)
+    if not d.start():
+        return
+    px = proxy.FaultProxy(os.path.join(d.dir, "px"), d.sock)
+    p = subprocess.Popen([lm, px.listen_path], stdin=subprocess.PIPE, stdout=subprocess.PIPE, text=True,
+                         env=dict(os.environ, ASAN_OPTIONS="detect_leaks=0:exitcode=99"))
+
+    def ask(l):
+        p.stdin.write(l + "\n"); p.stdin.flush()
+        return p.stdout.readline().strip()
+    bad = None
+    try:
+        ask("I 2000")
+        for k in range(10 if ctx.thorough else 5):
+            for plan, what in (([("L", 0)], "one lost reply"), ([("Q", 5)], "one request cut in the header"), ([("L", 0), ("Q", 30)], "two faults")):
+                px.set_plan(plan)
+                r = ask("E %s 4 5 0 0 4294967295 4294967295" % (b"signal %d" % k).hex()).split()
+                ctx.count(("signal-phase", "enc", k, what))
+                if len(r) < 3 or r[1] != "0":
+                    bad = "munge_encode under %s, with SIGALRM arriving every 2 ms in the calling application, returned %s" % (what, r[1:2] + [bytes.fromhex(r[3]).decode(errors="replace") if len(r) > 3 and r[3] != "-" else ""])
+                    break
+                cred = r[2]
+                px.set_plan(plan)
+                r2 = ask("D %s" % cred).split()
+                ctx.count(("signal-phase", "dec", k, what))
+                if len(r2) < 13 or r2[1] != "0":
+                    bad = "munge_decode under %s, with SIGALRM arriving every 2 ms in the calling application, returned %s" % (what, r2[1:2] + [bytes.fromhex(r2[-1]).decode(errors="replace") if r2 and r2[-1] != "-" else ""])
+                    break
+            if bad:
+                break
+    except Exception as e:               # noqa: BLE001
+        bad = "libmunge client died in the signal phase: %r" % e
+    finally:
+        try:
+            p.stdin.close(); p.wait(timeout=5)
+        except Exception:
+            p.kill()
+        px.close()
+        d.stop()
+    if bad:
+        ctx.violation(bad + " instead of completing by retrying", {"scenario": "lmclient with 'I 2000' (setitimer 2 ms, handler without SA_RESTART) behind the fault proxy"})
+
+
 def broken_phase(ctx):
     """'still complete by retrying' holds for the life of the daemon: any number of earlier broken connections (at every byte
     offset of the header) must leave it able to serve the next attempt"""
@@ -723,5 +775,6 @@ def run(ctx):
     if getattr(ctx, "replay", None):
         return
     broken_phase(ctx)
+    signal_phase(ctx)
     from props import fd_common
     fd_common.fd_phase(ctx)
